@@ -23,8 +23,8 @@ def run(ctx):
     f = A.fn("<&[u8] as wtransport_proto::bytes::BytesReader>::get_varint")
     ps = nonpanic(walk(f))
     okp = [p for p in ps if path_sig(p)[1].startswith("return Option::Some")]
-    adv = [e for p in okp for e in event_strs(p) if e.startswith("store *self :=")]
-    ctx.check("C01-R2", "<&[u8]>::get_varint advances by parse_size(first)", bool(adv) and all(re.match(r"^store \*self := &\*<impl Index<I> for \[T\]>::index\(&\*\*self,RangeFrom\(VarInt::parse_size\(\*ok\(<impl \[T\]>::first\(&\*\*self\)\)\)\)\)$", e) for e in adv),
+    adv = [e for p in okp for e in event_strs(p) if e.startswith("store self :=")]
+    ctx.check("C01-R2", "<&[u8]>::get_varint advances by parse_size(first)", bool(adv) and all(re.match(r"^store self := <impl Index<I> for \[T\]>::index\(self,RangeFrom\(VarInt::parse_size\(ok\(<impl \[T\]>::first\(self\)\)\)\)\)$", e) for e in adv),
               "<&[u8] as BytesReader>::get_varint does not advance by exactly the varint length: %s" % adv, where(f))
 
     ctx.rule("C01-R3", "no buffering layer: handles are newtypes over quinn streams; I/O delegates unchanged")
@@ -36,37 +36,37 @@ def run(ctx):
     f = A.fn("<wtransport::driver::streams::QuicRecvStream as wtransport_proto::bytes::AsyncRead>::poll_read")
     with depth_limit(12):
         sg = sorted(path_sig(p) for p in nonpanic(walk(f)))
-    RD = r"<RecvStream as AsyncRead>::poll_read\(&\*self\.0,&\*cx,&ReadBuf::new\(&\*buf\)\)"
-    okk = len(sg) == 3 and any(re.search(r"^return Poll::Ready\(Result::Ok\(<impl \[T\]>::len\(&\*ReadBuf::filled\(&ReadBuf::new\(&\*buf\)\)\)\)\)$", l) for _, l in sg) and any(l == "return Poll::Pending" for _, l in sg)
+    RD = r"<RecvStream as AsyncRead>::poll_read\(self\.0,cx,ReadBuf::new\(buf\)\)"
+    okk = len(sg) == 3 and any(re.search(r"^return Poll::Ready\(Result::Ok\(<impl \[T\]>::len\(ReadBuf::filled\(ReadBuf::new\(buf\)\)\)\)\)$", l) for _, l in sg) and any(l == "return Poll::Pending" for _, l in sg)
     ctx.check("C01-R3", "QuicRecvStream::poll_read (proto AsyncRead)", okk, "QuicRecvStream's AsyncRead impl no longer reads straight into the caller's buffer and returns filled().len(): %s" % [l for _, l in sg], where(f))
     f = A.fn("<wtransport::driver::streams::QuicSendStream as wtransport_proto::bytes::AsyncWrite>::poll_write")
     sg = [path_sig(p)[1] for p in nonpanic(walk(f))]
-    ctx.check("C01-R3", "QuicSendStream::poll_write (proto AsyncWrite)", sg == ["return <SendStream as AsyncWrite>::poll_write(&*self.0,&*cx,&*buf)"] or (len(sg) == 1 and re.match(r"^return <SendStream as AsyncWrite>::poll_write\(.*self\.0.*,&\*cx,&\*buf\)$", sg[0])), "QuicSendStream's AsyncWrite impl changed: %s" % sg, where(f))
+    ctx.check("C01-R3", "QuicSendStream::poll_write (proto AsyncWrite)", sg == ["return <SendStream as AsyncWrite>::poll_write(self.0,cx,buf)"] or (len(sg) == 1 and re.match(r"^return <SendStream as AsyncWrite>::poll_write\(.*self\.0.*,cx,buf\)$", sg[0])), "QuicSendStream's AsyncWrite impl changed: %s" % sg, where(f))
     for tr, ty, m, argn in (("tokio::io::AsyncRead", "wtransport::stream::RecvStream", "poll_read", "buf"), ("tokio::io::AsyncWrite", "wtransport::stream::SendStream", "poll_write", "buf"),
                             ("tokio::io::AsyncRead", "wtransport::driver::streams::QuicRecvStream", "poll_read", "buf"), ("tokio::io::AsyncWrite", "wtransport::driver::streams::QuicSendStream", "poll_write", "buf")):
         f = A.fn("<%s as %s>::%s" % (ty, tr, m))
         sg = [path_sig(p)[1] for p in nonpanic(walk(f))]
-        ctx.check("C01-R3", "%s::%s (tokio)" % (ty.split("::")[-1], m), len(sg) == 1 and re.match(r"^return <\w+ as Async(Read|Write)>::%s\(.*self\.0.*,&\*cx,&\*%s\)$" % (m, argn), sg[0]) is not None, "%s tokio %s does not delegate unchanged: %s" % (ty, m, sg), where(f))
+        ctx.check("C01-R3", "%s::%s (tokio)" % (ty.split("::")[-1], m), len(sg) == 1 and re.match(r"^return <\w+ as Async(Read|Write)>::%s\(.*self\.0.*,cx,%s\)$" % (m, argn), sg[0]) is not None, "%s tokio %s does not delegate unchanged: %s" % (ty, m, sg), where(f))
     import rules.C06 as c06  # delegation of read/write/read_exact/write_all (value and count unchanged)
-    for nm, inner in (("read", "QuicRecvStream::read(&*self.0,&*buf)"), ("read_exact", "QuicRecvStream::read_exact(&*self.0,&*buf)")):
+    for nm, inner in (("read", "QuicRecvStream::read(self.0,buf)"), ("read_exact", "QuicRecvStream::read_exact(self.0,buf)")):
         f = A.find1(r"^wtransport::stream::RecvStream::%s::\{closure#0\}$" % nm)
         sg = [path_sig(p)[1] for p in nonpanic(walk(f))]
         ctx.check("C01-R3", "RecvStream::%s" % nm, sg == ["return await(%s)" % inner], "RecvStream::%s does not delegate unchanged: %s" % (nm, sg), where(f))
-    for nm, inner in (("write", "QuicSendStream::write(&*self.0,&*buf)"), ("write_all", "QuicSendStream::write_all(&*self.0,&*buf)")):
+    for nm, inner in (("write", "QuicSendStream::write(self.0,buf)"), ("write_all", "QuicSendStream::write_all(self.0,buf)")):
         f = A.find1(r"^wtransport::stream::SendStream::%s::\{closure#0\}$" % nm)
         sg = [path_sig(p)[1] for p in nonpanic(walk(f))]
         ctx.check("C01-R3", "SendStream::%s" % nm, sg == ["return await(%s)" % inner], "SendStream::%s does not delegate unchanged: %s" % (nm, sg), where(f))
     f = A.find1(r"^wtransport::driver::streams::QuicRecvStream::read::\{closure#0\}$")
-    R = r"await\(RecvStream::read\(&\*self\.0,&\*buf\)\)"
+    R = r"await\(RecvStream::read\(self\.0,buf\)\)"
     sg = sorted(path_sig(p)[1] for p in nonpanic(walk(f)))
-    ctx.check("C01-R3", "QuicRecvStream::read returns quinn's count", any(re.match(r"^return Result::Ok\(Option::Some\(\(ok\(%s\) as Some\)\.0\)\)$" % R, l) for l in sg) and "return Result::Ok(Option::None)" in sg, "QuicRecvStream::read alters quinn's result: %s" % sg, where(f))
+    ctx.check("C01-R3", "QuicRecvStream::read returns quinn's count", any(re.match(r"^return Result::Ok\(Option::Some\(ok\(ok\(%s\)\)\)\)$" % R, l) for l in sg) and "return Result::Ok(Option::None)" in sg, "QuicRecvStream::read alters quinn's result: %s" % sg, where(f))
 
     ctx.rule("C01-R4", "preamble before hand-out: SendStream exists only on the Ok arm of the awaited preamble write, with the given session id")
     f = A.find1(r"^wtransport::stream::OpeningUniStream::new::\{closure#0\}$")
     UP = r"await\(<impl .*?UniLocal, Quic>>>::upgrade\(quic_stream,StreamHeader::new_webtransport\(session_id\)\)\)"
     rows = [
-        {"name": "preamble written->SendStream over the same stream", "atoms": [r"^%s is Ok$" % UP],
-         "leaf": r"^return Result::Ok\(SendStream\(<impl .*?UniLocal, WT>>>::into_stream\(<impl .*?UniLocal, H3>>>::upgrade\(\(%s as Ok\)\.0\)\)\)\)$" % UP},
+        {"name": "preamble written->SendStream over the same stream", "atoms": [r"^%s ok$" % UP],
+         "leaf": r"^return Result::Ok\(SendStream\(<impl .*?UniLocal, WT>>>::into_stream\(<impl .*?UniLocal, H3>>>::upgrade\(ok\(%s\)\)\)\)\)$" % UP},
         {"name": "stopped->Refused", "atoms": [r" is Stopped$"], "leaf": r"^return Result::Err\(StreamOpeningError::Refused\)$"},
         {"name": "not connected", "atoms": [r" is NotConnected$"], "leaf": r"^return Result::Err\(StreamOpeningError::NotConnected\)$"},
     ]
@@ -74,8 +74,8 @@ def run(ctx):
     f = A.find1(r"^wtransport::stream::OpeningBiStream::new::\{closure#0\}$")
     UPB = r"await\(<impl .*?BiLocal, H3>>>::upgrade\(<impl .*?BiLocal, Quic>>>::upgrade\(quic_stream\),session_id\)\)"
     rows = [
-        {"name": "preamble written->(SendStream, RecvStream) over the same stream", "atoms": [r"^%s is Ok$" % UPB],
-         "leaf": r"^return Result::Ok\(\(SendStream::new\(<impl .*?BiLocal, WT>>>::into_stream\(\(%s as Ok\)\.0\)\.0\),RecvStream::new\(<impl .*?BiLocal, WT>>>::into_stream\(\(%s as Ok\)\.0\)\.1\)\)\)$" % (UPB, UPB)},
+        {"name": "preamble written->(SendStream, RecvStream) over the same stream", "atoms": [r"^%s ok$" % UPB],
+         "leaf": r"^return Result::Ok\(\(SendStream::new\(<impl .*?BiLocal, WT>>>::into_stream\(ok\(%s\)\)\.0\),RecvStream::new\(<impl .*?BiLocal, WT>>>::into_stream\(ok\(%s\)\)\.1\)\)\)$" % (UPB, UPB)},
         {"name": "stopped->Refused", "atoms": [r" is Stopped$"], "leaf": r"^return Result::Err\(StreamOpeningError::Refused\)$"},
         {"name": "not connected", "atoms": [r" is NotConnected$"], "leaf": r"^return Result::Err\(StreamOpeningError::NotConnected\)$"},
     ]
@@ -83,14 +83,14 @@ def run(ctx):
     # the driver-level upgrades write the header / signal frame via the proto typestate and keep the same quinn stream
     f = A.find1(r"^wtransport::driver::streams::unilocal::<impl .*UniLocal, wtransport_proto::stream::types::Quic>>>::upgrade::\{closure#0\}$")
     sg = sorted(path_sig(p)[1] for p in nonpanic(walk(f)))
-    W = "await(<impl Stream<UniLocal, Quic>>::upgrade_async(self.proto,stream_header,&self.stream))"
-    ctx.check("C01-R4", "unilocal upgrade", sg == sorted(["return Result::Ok(streams::Stream(self.stream,ok(%s)))" % W, "return Err(from(err(%s)))" % W]), "unilocal::upgrade changed: %s" % sg, where(f))
+    W = "await(<impl Stream<UniLocal, Quic>>::upgrade_async(self.proto,stream_header,self.stream))"
+    ctx.check("C01-R4", "unilocal upgrade", sg == sorted(["return Result::Ok(streams::Stream(self.stream,ok(%s)))" % W, "return Result::Err(err(%s))" % W]), "unilocal::upgrade changed: %s" % sg, where(f))
     f = A.find1(r"^wtransport::driver::streams::bilocal::<impl .*BiLocal, wtransport_proto::stream::types::H3>>>::upgrade::\{closure#0\}$")
     sg = sorted(path_sig(p)[1] for p in nonpanic(walk(f)))
-    W = "await(<impl Stream<BiLocal, H3>>::upgrade_async(self.proto,session_id,&self.stream.0))"
-    ctx.check("C01-R4", "bilocal upgrade", sg == sorted(["return Result::Ok(streams::Stream(self.stream,ok(%s)))" % W, "return Err(from(err(%s)))" % W]), "bilocal::upgrade changed: %s" % sg, where(f))
-    for role, path, hdr in (("unilocal", r"^wtransport_proto::stream::unilocal::<impl .*UniLocal, wtransport_proto::stream::types::Quic>>::upgrade_async::\{closure#0\}$", r"^await StreamHeader::write_async\(&stream_header,&\*writer\)$"),
-                            ("bilocal", r"^wtransport_proto::stream::bilocal::<impl .*BiLocal, wtransport_proto::stream::types::H3>>::upgrade_async::\{closure#0\}$", r"^await Frame::write_async\(&Frame::new_webtransport\(session_id\),&\*writer\)$")):
+    W = "await(<impl Stream<BiLocal, H3>>::upgrade_async(self.proto,session_id,self.stream.0))"
+    ctx.check("C01-R4", "bilocal upgrade", sg == sorted(["return Result::Ok(streams::Stream(self.stream,ok(%s)))" % W, "return Result::Err(err(%s))" % W]), "bilocal::upgrade changed: %s" % sg, where(f))
+    for role, path, hdr in (("unilocal", r"^wtransport_proto::stream::unilocal::<impl .*UniLocal, wtransport_proto::stream::types::Quic>>::upgrade_async::\{closure#0\}$", r"^await StreamHeader::write_async\(stream_header,writer\)$"),
+                            ("bilocal", r"^wtransport_proto::stream::bilocal::<impl .*BiLocal, wtransport_proto::stream::types::H3>>::upgrade_async::\{closure#0\}$", r"^await Frame::write_async\(Frame::new_webtransport\(session_id\),writer\)$")):
         f = A.find1(path)
         okp = [p for p in nonpanic(walk(f)) if path_sig(p)[1].startswith("return Result::Ok(")]
         ctx.check("C01-R4", "proto %s upgrade_async writes the preamble before returning the WT/H3 stage" % role, bool(okp) and all(any(re.match(hdr, e) for e in event_strs(p)) for p in okp),
@@ -98,7 +98,7 @@ def run(ctx):
     for nm, arg in (("open_uni", "OpeningUniStream::new"), ("open_bi", "OpeningBiStream::new")):
         f = A.find1(r"^wtransport::driver::Driver::%s::\{closure#0\}$" % nm)
         sg = [path_sig(p)[1] for p in nonpanic(walk(f)) if path_sig(p)[1].startswith("return Result::Ok(")]
-        ctx.check("C01-R4", "Driver::%s passes session id and the opened stream" % nm, len(sg) == 1 and re.match(r"^return Result::Ok\(%s\(session_id,some\(await\(<impl .*>::%s\(&\*self\.quic_connection\)\)\)\)\)$" % (arg, nm), sg[0]) is not None,
+        ctx.check("C01-R4", "Driver::%s passes session id and the opened stream" % nm, len(sg) == 1 and re.match(r"^return Result::Ok\(%s\(session_id,ok\(await\(<impl .*>::%s\(self\.quic_connection\)\)\)\)\)$" % (arg, nm), sg[0]) is not None,
                   "Driver::%s changed: %s" % (nm, sg), where(f))
 
     ctx.rule("C01-R5", "the accept tasks hand on the stream object the preamble was read from (uni: kind==WebTransport; bidi: first non-GREASE frame has a session id)")
